@@ -22,7 +22,7 @@
    Also proved: cache transparency for every cache size and every order of
    requests; save/load for code without pseudo descriptors (D7 otherwise). *)
 From PBK Require Import Base Bits Descr Walk Coder Decode Encode Column DecodeC EncodeC Compile CompileRun CompileProofs Cache CacheProofs
-  CompileChk CompileEquivBase CompileEquivTop CompileFindings.
+  CompileChk CompileEquivBase CompileEquivInv CompileEquivTop CompileFindings.
 
 (* for any cache size m and any order of earlier requests ks, get_or_compile
    returns exactly what compiling the key afresh returns *)
@@ -70,8 +70,9 @@ Print Assumptions C08_compile_exec_203000_marker_refuted.
 (* [ok_c08 T] (CompileChk.v) is executable: the template compiler run with   *)
 (* checking handlers.  It fails exactly where compiling is not provably       *)
 (* transparent: a marker operator while 204YYY is in force (D14), while the   *)
-(* 222000 status is not "NA", or after a 203000 that cancelled a definition    *)
-(* (D5); a replication whose body does not leave the compile-time registers   *)
+(* 222000 status is "processing" (D27) or "waiting" with a class 33 element    *)
+(* among the possible back references, or after a 203000 that cancelled a      *)
+(* definition (D5); a replication whose body does not leave the compile-time registers   *)
 (* as it found them, unless a second compilation of the body (from the         *)
 (* registers left by the first) records the same statements and then leaves    *)
 (* the registers alone, and the count is statically >= 1 (D19 for delayed      *)
@@ -80,15 +81,35 @@ Print Assumptions C08_compile_exec_203000_marker_refuted.
 (* with the same descriptors, links and primitive state (values, bits).         *)
 (* ======================================================================== *)
 
+(* start states: initial registers, any primitive state, any decoded descriptors and
+   links so far provided no plain class 33 element descriptor is among them (in
+   particular the empty lists of a fresh subset) ... *)
 Theorem C08_compile_exec_equiv :
   forall (C : Type) (P : prims C) (T : descs),
   Compile.scoped T = true -> ok_c08 T = true ->
   exists code, compile T = Ok code /\
-    forall c0 : io C,
+    forall c0 : io C, Forall no33_dd (io_dd c0) ->
       agree same_io (walk_list (io_handlers P) io_add_link T (mkWs regs0 c0))
                     (exec_stmts P true code (mkWs regs0 c0)).
 Proof. intros C P T _. exact (compile_exec_equiv P T). Qed.
 Print Assumptions C08_compile_exec_equiv.
+
+(* ... and every start state with initial registers, under [ok_c08_any] (which also
+   rejects a marker operator while the 222000 status is "waiting") *)
+Theorem C08_compile_exec_equiv_any_start :
+  forall (C : Type) (P : prims C) (T : descs),
+  Compile.scoped T = true -> ok_c08_any T = true ->
+  exists code, compile T = Ok code /\
+    forall c0 : io C,
+      agree same_io (walk_list (io_handlers P) io_add_link T (mkWs regs0 c0))
+                    (exec_stmts P true code (mkWs regs0 c0)).
+Proof. intros C P T _. exact (compile_exec_equiv_any P T). Qed.
+Print Assumptions C08_compile_exec_equiv_any_start.
+
+Example C08_compile_exec_equiv_any_start_nonvacuous :
+  Compile.scoped T_ok = true /\ ok_c08_any T_ok = true /\
+  ok_c08 T_waiting = true /\ ok_c08_any T_waiting = false.
+Proof. vm_compute. repeat split. Qed.
 
 (* the hypotheses hold for a template with operators, nested replication, new
    reference values, a bitmap, class 33 attributes and a marker operator *)
@@ -101,7 +122,7 @@ Theorem C08_compile_exec_equiv_nonzero_factors :
   forall (C : Type) (P : prims C) (T : descs),
   Compile.scoped T = true -> ok_c08_nz T = true ->
   exists code, compile T = Ok code /\
-    forall c0 : io C,
+    forall c0 : io C, Forall no33_dd (io_dd c0) ->
       agree same_io (walk_list (io_handlers (nz_prims P)) io_add_link T (mkWs regs0 c0))
                     (exec_stmts (nz_prims P) true code (mkWs regs0 c0)).
 Proof. intros C P T _. exact (compile_exec_equiv_nz P T). Qed.
